@@ -24,13 +24,21 @@ def catching(meta):
             chk = eval(chk, {'__builtins__': {}}, {})
         except Exception:
             chk = {'violations': [chk]}
+    chk = chk or {}
+    if 'violations' not in chk:       # round-2 format: one entry per property check that was run
+        vs = []
+        for pr, c in chk.items():
+            vs += c.get('violations', [])
+        chk = {'violations': vs}
     obs = []
-    for v in (chk or {}).get('violations', []):
+    for v in chk.get('violations', []):
         m = re.match(r'failed obligation: (\S+?/.+?) \[path', v)
         if m:
             o = m.group(1)
             if o not in obs:
                 obs.append(o)
+        elif v.startswith('undecided obligations') and 'bounded replay battery' not in obs:
+            obs.append('x/undecided -> bounded replay battery')
     return chk, obs
 
 
@@ -53,7 +61,7 @@ def main():
         rows.append('| %s | %s | %s | %s | %s | %s |' % (
             meta['property'], name.split('-', 1)[1], ', '.join('`%s`' % f for f in files),
             'yes' if meta.get('confirmed') else 'NO',
-            ('yes' if meta.get('caught') else 'NO'),
+            ('yes' if meta.get('caught') else ('n/a (no violation)' if meta.get('valid') is False else 'NO')),
             (ob or '-') + ((' — ' + EXTRA[name]) if name in EXTRA else '')))
     table = ['| prop | seeded change | file | demo confirmed | caught (exit 1) | failing obligation(s) / note |',
              '|---|---|---|---|---|---|'] + rows
